@@ -28,12 +28,12 @@ CLAIMS = {
         'indexes agree, no NaN) is preserved by add/discard and by ZADD/ZINCRBY/ZREM/ZREMRANGE* bodies; rank = index, ZCOUNT = |ZRANGEBYSCORE|, the bisect '
         'windows equal the declarative inclusive/exclusive filter; ZADD/ZINCRBY never store NaN. Scores are an exact binary64 model. ' + TIE +
         'A monitor also checks the invariant on the real _byscore/_bylex after every event.',
-        note=NOTE + 'The soft-float codec (decimal->double, +, *, %.17g) is validated bit-for-bit against CPython (C18 check), not proved; CodecLaw (17 digits round-trip) is sampled.',
+        note=NOTE + 'The soft-float arithmetic and decimal->double are proved correctly rounded (C18a, C18f); the %.17g / %.17f formatting is validated bit-for-bit against CPython, and CodecLaw (17 digits round-trip) is sampled.',
         technique='Lean 4 invariant proofs + differential correspondence', design='7 C03'),
  'C04': dict(text='Lean theorems: tryParse (encodeRequest fields ++ rest) = (fields, rest) for arbitrary bytes; a complete request is prefix-stable; parsing a stream in any two '
         'chunks equals parsing it at once (parseAll_append_general); the Bridge theorem callArity_ok shows no accepted argument count makes a Python body raise TypeError. ' + TIE +
         'Monitors on the implementation: exactly one reply per request (per channel for (P)SUBSCRIBE/(P)UNSUBSCRIBE), well-formed replies, no foreign exception; a crash is a first-class '
-        'outcome of the model. Known finding KF-1 (SUBSCRIBE inside MULTI) is mirrored by the model and reported as KNOWN-FINDING.',
+        'outcome of the model. (P)SUBSCRIBE/(P)UNSUBSCRIBE inside MULTI (was known finding KF-1) are refused at queue time since fix F37; model and theorems follow.',
         note=NOTE + 'The drain-level chunking theorem is conditional on buffer-independence of processCommand (sendall_append_conditional); the generator-based Python parser is tied by chunked sends.',
         technique='Lean 4 theorems on the parser + differential correspondence incl. malformed stream and random chunking', design='7 C04'),
  'C05': dict(text='Lean theorems on the state-machine model: QUEUED has no effect on data (queued_no_effect), EXEC = clear state then run the queue left to right with the same runner as outside '
@@ -54,7 +54,7 @@ CLAIMS = {
  'C08': dict(text='Lean theorems: error_reply_changes_nothing_regular - for every regular command, an error reply implies the purged database is unchanged and nothing was notified; '
         'failed_iff_error_path characterises the error paths; bodies never return an error reply through the success path (regular_reply_not_err). ' + TIE +
         'Monitor: snapshot before = after on every error reply of the implementation; exhaustive (command x stored type) wrong-type matrix.',
-        note=NOTE, technique='Lean 4 generic theorem over arbitrary bodies + correspondence + implementation monitor', design='7 C08'),
+        note=NOTE, technique='Lean 4 generic theorem over arbitrary bodies + static validate-first analysis of every body (bridge) + correspondence + implementation monitor', design='7 C08'),
  'C09': dict(text='Lean theorems: no_empty_collections_all_histories - for EVERY history of events (open/close/GC, raw byte writes of any requests of all 139 commands incl. SORT STORE, '
         'ZUNIONSTORE, scripts, EXEC blocks, blocking wake-ups and time-outs, both front-ends) every database dictionary has unique keys and stores no empty collection; lookup_never_empty; '
         'one-step forms for arbitrary command bodies (no_empty_collections); a key that becomes live was notified as a write target (reads_create_nothing_regular). ' + TIE + 'Monitor: after every event DBSIZE = |KEYS *| = |complete SCAN|, EXISTS and TYPE agree, no stored empty collection, in every database.',
@@ -62,7 +62,7 @@ CLAIMS = {
  'C10': dict(text='Lean theorems: deliveries_spec (exactly the channel subscribers then one pmessage per matching pattern subscription, nobody else), publish_spec (count = deliveries), '
         'subscribe/unsubscribe acknowledgements incl. idempotence and the single ack for an empty unsubscribe, channels_global. Pattern matching is glob_correct (C16). ' + TIE +
         'Monitor: an independent Python reference of the subscription tables using a port of Redis glob.',
-        note=NOTE + 'KF-1: (P)SUBSCRIBE inside MULTI crashes at EXEC.', technique='Lean 4 theorems over the StateM model + multi-connection correspondence + reference monitor', design='7 C10'),
+        note=NOTE + 'PUBLISH from another THREAD to an asyncio subscriber is outside the model (asyncio.Queue is not thread-safe; noted in DESIGN 17.4).', technique='Lean 4 theorems over the StateM model + multi-connection correspondence + reference monitor', design='7 C10'),
  'C11': dict(text='Lean theorems: a pass serves the first key (in the order given) holding a live non-empty list and takes exactly one element (bpopPass_served_in_key_order), returns nothing iff none does '
         '(bpopPass_none_iff), WRONGTYPE only on the first pass, every modified write-back wakes every connection parked on that database (push_wakes_parked, notify_wakes_all_parked), '
         'never parks inside MULTI/EXEC, a wake-up either serves with exactly one reply or leaves the client parked, a time-out reply only if unserved and the deadline passed. '
@@ -78,7 +78,7 @@ CLAIMS = {
         'compiled Lean checker validates every recorded trace and the commands are replayed in the proven linearization order through the sequential model, comparing every reply; '
         'concurrent first connections are a separate scenario.',
         note=NOTE + 'Not proved: that every schedule of the Python code is well-locked (bytecode pre-emption is outside the model); the evidence reports how many real traces were validated.',
-        technique='Lean 4 lockset serialisability theorem + trace validation of real-thread runs against the sequential model', design='7 C12'),
+        technique='Lean 4 lockset serialisability theorem + static lock-discipline check of the source (generated tables, kernel-checked) + trace validation of real-thread runs against the sequential model', design='7 C12'),
  'C14': dict(text='Lean theorems: for every command other than the three blocking pops (and scripts) the asyncio mode and the sync mode of the model are the same function (special_mode_irrelevant_nonblocking, '
         'processCommand_mode_irrelevant, EXEC included); a blocking pop served at once or inside MULTI behaves identically; otherwise it parks and pauses only its own connection '
         '(blockingAsync_parks_and_pauses, only_own_connection_suspends), a paused connection only buffers (paused_buffers), and the re-try task emits exactly one reply before resuming the parser '
@@ -112,10 +112,10 @@ CLAIMS = {
         'backtracking matcher) agrees with a Lean port of Redis stringmatchlen; compile is a total function. The model is tied to the code '
         'by comparing compile_pattern(p).match(s) with both on random and (thorough) exhaustively enumerated small pairs, and through KEYS / '
         'SCAN MATCH / PSUBSCRIBE in whole-system histories.',
-   note='Trusted: Lean kernel; that the atom semantics (matchA) describes CPython re on the regex fragment compile_pattern emits (sampled, not '
-        'proved); the Lean port of stringmatchlen (also cross-checked against an independent Python port). Bytes >= 0x80 in ranges follow the code '
+   note='Trusted: Lean kernel; that CPython re implements the textbook semantics on the regex fragment compile_pattern emits (the text itself is compared, its '
+        'meaning is proved in C16r); the Lean port of stringmatchlen (also cross-checked against an independent Python port). Bytes >= 0x80 in ranges follow the code '
         '(unsigned), README item 5.',
-   technique='Lean 4 theorem (functional induction over rglob) + differential correspondence', design='7 C16'),
+   technique='Lean 4 theorems (glob = Redis matcher; emitted regex text denotes that language) + differential correspondence incl. the regex text', design='7 C16'),
  'C17': dict(text='Lean theorems: tryParse_encode for arbitrary bytes (payloads are taken by length), command-name normalisation touches only the first field and queued arguments are kept verbatim '
         '(multi_queues_args_unchanged). ' + TIE + 'Binary round trips (all 256 byte values, CR LF, NUL, empty, 100 kB) through every container type, MULTI and pub/sub; redis-py client level '
         'with decode_responses on/off. Client-side decoding is part of the model since round 4 (FR/Sys/Client.lean: read_response/_decode of both front-ends with the utf-8 / latin-1 / ascii '
@@ -126,7 +126,7 @@ CLAIMS = {
  'C18': dict(text='Lean theorems: int_decode_iff (accepted iff canonical decimal within range) for Int/DbIndex/BitOffset/BitValue/Timeout, encode_guard, float converters never return NaN and reject '
         'underscores / leading / trailing whitespace. ' + TIE + 'Function-level correspondence of every converter on decorated literals; the exact binary64 model against CPython '
         '(parse, %.17g, %.17f, +, *) on boundary and random doubles; strtod-grammar judgement of accepted floats.',
-        note=NOTE + 'The soft-float arithmetic is validated, not proved; hex floats and over/underflow are refused as the code does.',
+        note=NOTE + 'Proved: decimal->double and +, * are IEEE round-to-nearest-even (C18f, C18a); validated only: %.17g / %.17f formatting, the 17-digit round trip in general. Hex floats and over/underflow are refused as the code does.',
         technique='Lean 4 theorems on the converters + bit-exact differential check against CPython', design='7 C18'),
 }
 
@@ -157,11 +157,32 @@ EXTRA4 = {
  'C18': 'Float grammar (FR.Props.C18f, 70 theorems): float_decode_iff for all byte strings against an independent declarative strtod grammar, value = round-to-nearest-even of the denoted rational (half-ulp, tie-even, monotone, exact integers), '
         'the four converter flags as iffs, incrbyfloat/hincrbyfloat_never_stores_nonfinite, zadd_zscore_roundtrip_partial under the per-double hypothesis CodecAt. ',
 }
-for _k, _v in EXTRA4.items():
+EXTRA5 = {
+ 'C03': 'Score arithmetic is proved, not only validated (FR.Props.C18a, see C18): ZINCRBY / ZADD INCR store the correctly rounded sum, SCORE_NAN exactly for inf + -inf; the ZUNIONSTORE score formula is the rounded product / sum with NaN->0 only for inf*0 and inf-inf. ',
+ 'C04': 'Round 5 (FR.Props.C04k, 47 theorems, after fix F37): the queue invariant TxWf (no (P)SUBSCRIBE/(P)UNSUBSCRIBE, no EXEC/DISCARD/MULTI/WATCH, only known names in any transaction queue) holds in every reachable state; '
+        'processCommand_crash_only_exec_of_script / processCommand_never_crashes / event_never_crashes / reachable_conn_alive: no request of any history kills a connection or raises anything but the emulated ConnectionError (the only exclusion is the '
+        'model gap EVAL-inside-MULTI, shown by a kernel-checked witness); reply counts: exactly one reply for unknown / wrong-arity / queued / refused / executed commands, one per argument for (P)SUBSCRIBE, max(1, subscriptions) for an empty (P)UNSUBSCRIBE, 0 or 1 for a blocking pop; '
+        'subscribe_in_multi_refused, exec_after_refusal_aborts; the chunking theorems without aliveness hypotheses on reachable states. Bridge: notInMulti_eq (the refused list is extracted from _process_command). ',
+ 'C05': 'Round 5: refused_in_multi(_eq) - the four pub/sub commands inside MULTI are answered with the fixed error, poison the transaction and queue nothing; db matrix also in C05 (fresh databases created inside EXEC carry the clock). ',
+ 'C08': 'Round 5, tie (a) for the modelling decision "an error carries no state": tools/gen_purity.py runs a forward abstract interpretation over the AST of all 139 command bodies on every check (no raise / raising call can execute after the body changed a CommandItem, a stored container, '
+        'the database, the server or the connection; loops twice, try/handler states, lazily consumed generators) and Bridge/Purity proves purity_bodies_validate_first (empty for every command except EXEC and EVAL, whose errors are specified to follow a change) and purity_covers_all_commands. ',
+ 'C10': 'Round 5: (P)SUBSCRIBE/(P)UNSUBSCRIBE inside MULTI are refused (process_refused, dispatchBody_refused); life-cycle cases with coinciding channel / pattern names. ',
+ 'C12': 'Round 5, the well-lockedness hypothesis established statically for the current source (tie (a)): tools/gen_locks.py extracts, per method and nested function of FakeSocket / AsyncFakeSocket, the shared-state accesses and call edges with their lexical lock status (Generated/Locks); '
+        'Bridge/Locks proves locks_sync_disciplined / locks_async_disciplined / locks_tables_meaningful on the generated tables; FR.Props.C12l.disciplined_sound: if the check passes, every access at the end of every call path of any length from every root happens with the lock held or is one of four '
+        'benign accesses quoted from the code; bodies_run_under_the_lock. Scheduler plans: an EXEC with blocking pops inside never releases the lock half-way; threads started by the implementation are traced (acq-outside-command). ',
+ 'C14': 'Round 5: locks_async_disciplined (Bridge/Locks) also covers the re-try task, its callbacks and close(); one-write pipelines behind a parked pop, blocking pops queued in MULTI, spoiled re-checks, sync-vs-asyncio differential under decode_responses / latin-1 with nested replies. ',
+ 'C16': 'Round 5 (FR.Props.C16r, 18 theorems): the model now contains the regex TEXT compile_pattern emits (FR/Glob/Render.lean, compared byte for byte with compile_pattern(p).pattern for every pattern the check evaluates); parseRx reads that text back into a regular expression with the textbook '
+        'language semantics Rx.Matches (independent of the matcher); render_parses, compile_ok, matchA_iff_language (the backtracking matcher decides exactly that language), regex_text_denotes_redis_glob (for every pattern and non-empty subject the emitted text denotes a language that contains the subject iff '
+        'Redis stringmatchlen accepts), compile_never_fails (the text is always a well-formed regex of the fragment), lexical facts (every special byte is escaped or structural; no escape forms a class shorthand or back-reference). What stays trusted shrinks to: CPython re implements textbook semantics on this fragment. ',
+ 'C18': 'Round 5 (FR.Props.C18a, 80 theorems): the soft-float arithmetic IS IEEE-754 binary64 round-to-nearest-even: a model-independent definition IsRNE of the correctly rounded result, RN is the unique function satisfying it (nearest, half-ulp, ties-to-even, overflow at 2^1024-2^970, underflow at 2^-1075), '
+        'add_correctly_rounded / mul_correctly_rounded for all finite operands, signed-zero rules, NaN exactly for inf-inf / inf*0, commutativity, order = order of the values, bit codec round trip, ofInt, truncation; INCRBYFLOAT / HINCRBYFLOAT / ZINCRBY reply and store the correctly rounded sum or refuse. ',
+ 'C20': 'Round 5: locks_sync_disciplined covers close() (lock-free by design, benign access listed) and the reaper loop. ',
+}
+for _k, _v in list(EXTRA4.items()) + list(EXTRA5.items()):
     EXTRA[_k] = EXTRA.get(_k, '') + _v
 
 NOTE_FIX = {
- 'C04': 'KF-1 is the only known way to kill a connection parser; the generator-based Python parser is tied by chunked sends. ',
+ 'C04': 'The generator-based Python parser is tied by chunked sends. EVAL queued inside MULTI is not modelled (the model marks it as a fault; not generated): the no-crash theorems exclude exactly that EXEC. ',
 }
 
 PENDING = 'check under construction in this round'
